@@ -30,7 +30,7 @@ def _streams(prop, quick_random, thorough_random):
 PROPS = {
     "C14": {
         "streams": _streams("14", 1500, 30000),
-        "rule": "all histories (quick: 4 events after Bind+DoListen, 3 unconstrained; thorough: 5 / 5 / 6) over {Bind, DoListen, second Listen, "
+        "rule": "(history) short fixed histories whose state must not outlive an operation: a Send given up on an unbuffered pipe followed by calls (the peer sees only the later calls), a connection closed with received but unread replies followed by a new connection that calls and upgrades, an interface registered between two serving runs on one Service under the same context (a call answered InterfaceNotFound before reaches it afterwards), a plain call after a `more` call answered to its end (the handler sees the flags of the call it handles); all histories (quick: 4 events after Bind+DoListen, 3 unconstrained; thorough: 5 / 5 / 6) over {Bind, DoListen, second Listen, "
                 "connect, connect with Shutdown placed between accept and handler start, connect with Shutdown placed in the following "
                 "SetDeadline, GetInfo call, client close, abort mid-frame, failing handler, ctx cancel, Shutdown, GetListener, "
                 "RegisterInterface} on a controlled listener + random longer ones + all histories of 3 (4) events with Listen on real "
